@@ -76,6 +76,19 @@ def codec_paths_memoryview(ser, x):
     return A, K, R
 
 
+def unsign_complex_zero(v):
+    t = type(v)
+    if t is complex:
+        return complex(v.real + 0.0, v.imag + 0.0)       # -0.0 + 0.0 == 0.0
+    if t in (list, tuple):
+        return t(unsign_complex_zero(e) for e in v)
+    if t in (set, frozenset):
+        return t(unsign_complex_zero(e) for e in v)
+    if t is dict:
+        return {unsign_complex_zero(k): unsign_complex_zero(e) for k, e in v.items()}
+    return v
+
+
 def check_codec(sers, name, x, is_core, rec):
     ser = sers[name]
     A, K, A2, R = codec_paths(ser, x)
@@ -103,6 +116,10 @@ def check_codec(sers, name, x, is_core, rec):
         rec.count("codec_refused_consistently")
         return
     RR = outcome(lambda: ser.loads(ser.dumps(R)))
+    if name == "serpent" and not is_raised(RR):
+        # the serpent library writes complex numbers as an expression '(a+bj)', which does not keep the sign of zero parts (library behaviour,
+        # not Pyro's mapping): one more pass can turn (-0+0j) into 0j. Zero signs inside complex values are not compared here.
+        R, RR = unsign_complex_zero(R), unsign_complex_zero(RR)
     if not agree(RR, R) or is_raised(RR):
         rec.violation("mapping-not-idempotent:%s" % name, "%s: R(x)=%s but R(R(x))=%s for x=%s" % (name, show(R), show(RR), core.short(x, 200)), pay)
         return
